@@ -184,8 +184,17 @@ impl SignalUse {
         self.constraints
             .iter()
             .filter(|constraint| {
-                let lhe = constraint.lhe.signals_read().iter();
-                let rhe = constraint.rhe.signals_read().iter();
+                // The assigned signal is either a signal of the template or a
+                // signal of a component (`c.in <-- x`), which is tracked as a
+                // component use rather than a signal use.
+                let lhe = constraint
+                    .lhe
+                    .signals_read()
+                    .iter()
+                    .chain(constraint.lhe.components_read().iter())
+                    .chain(constraint.lhe.components_written().iter());
+                let rhe =
+                    constraint.rhe.signals_read().iter().chain(constraint.rhe.components_read().iter());
                 lhe.chain(rhe)
                     .any(|signal_use| signal_use.name() == signal && signal_use.access() == access)
             })
